@@ -4,8 +4,9 @@ import os
 from pyvc.api import *
 from contracts import c07 as _c07
 from contracts import c16 as _c16
+from contracts import c19 as _c19
 
-SPEC_IMPORTS = ['contracts.common', 'contracts.c07', 'contracts.c16']
+SPEC_IMPORTS = ['contracts.common', 'contracts.c07', 'contracts.c16', 'contracts.c19']
 SPEC_FUNCTIONS = ['goes_to_map', 'is_file_rename']
 
 _PN = Obj('PNode')
@@ -83,7 +84,8 @@ _rename_files.ghost = {}
 _rename.invariants = {0: _rename.invariants[0][:2], 1: ['True']}
 _rename.ensures = _rename.ensures[:2]
 
-CONTRACTS = [_rename, _rename_files, _c07._calc_rename, _c16._flag]
+# the project-wide candidate scan behind get_references walks the project with FolderIO.walk (shared with C19)
+CONTRACTS = [_rename, _rename_files, _c07._calc_rename, _c16._flag] + _c19.WALK
 
 
 def register(reg):
